@@ -112,6 +112,35 @@ NEEDS = {
     "C20e": "a submodule parent cycle plus a submodule hanging off it (rho shape) and a lookup from inside the "
             "latter that reaches the ancestor search",
     "C20f": "an EXTENDS ring and a member-access chain of >= 3 parts whose middle part is no component",
+    "C01g": "a message body carrying raw (unescaped) multi-byte UTF-8: the 'complete short reads' loop counts "
+            "characters against a byte length and swallows the next header",
+    "C01h": "a $/cancelRequest notification naming id X, then (at any later time) a request with id X",
+    "C02g": "an ASCII-only document, a one-line ranged edit inserting a non-BMP character, then another ranged "
+            "edit behind it on the same line before any whole-document change (stale ascii_only flag)",
+    "C02h": "a file larger than one I/O block with a multi-byte UTF-8 character straddling a block boundary, "
+            "loaded by didOpen/didSave",
+    "C03g": "an evaluated #if/#elif whose evaluation raises OverflowError, MemoryError or RecursionError",
+    "C03h": "neutralised (see note): persistent per-path cache of compiled macro patterns",
+    "C09g": "incremental sync; a statement continued over lines with several names on a continuation line; a "
+            "definition request, a one-line edit shortening that line, the definition request again",
+    "C09h": "workspace/didChangeWatchedFiles for an open document with unsaved edits (the buffer is replaced by "
+            "the disk version)",
+    "C10g": "file A with 'use b, only: x' and 'use c', file C with 'use b, only: y', an earlier lookup in A, then "
+            "only C edited so that it no longer imports y",
+    "C10h": "TAB characters in syntactically relevant places, a re-parsing didChange, then a save of exactly the "
+            "buffer text (the reload that expands TABs is skipped)",
+    "C15g": "an INCLUDE naming, by its bare name, a fragment that lives in another source directory",
+    "C15h": "a three-level EXTENDS chain over three files, opened leaf, middle, root",
+    "C16g": "a '+' left unescaped in a file URI path",
+    "C16h": "a lone surrogate brought in by didChange inside a documentation comment that hover/completion echo",
+    "C17g": "an INTEGER PARAMETER whose initialiser contains '*': the text is eval()ed when diagnostics are computed",
+    "C17h": "a source_dirs/excl_paths/include_dirs entry containing '{', '$' or '~': pasted into bash -c",
+    "C18g": "two start-ups in one process with the same glob string and a tree that changed in between",
+    "C18h": "a wildcard in source_dirs/excl_paths that only matches through a dot-prefixed directory or file",
+    "C19g": "configuration file rewritten so that an option disappears, then workspace/didChangeConfiguration",
+    "C19h": "--lowercase_intrinsics on the command line and false in the file, then any answer with an intrinsic",
+    "C20g": "a submodule parent ring of length >= 2 without any IMPLICIT statement and a procedure in a ring member",
+    "C20h": "a procedure with two dummy procedures whose interface leads back to it",
     "C20b": "a '=>' link cycle across two modules that USE each other, a didChange of the file whose link was "
             "refused at start-up, then a query",
 }
